@@ -4,7 +4,7 @@
 EXTENDS Conn
 
 CONSTANTS MaxReqs, MaxBody, MaxCuts
-Shapes == [h : 1..2, b : 0..MaxBody, close : BOOLEAN]
+Shapes == {x \in [h : 1..2, b : 0..MaxBody, close : BOOLEAN, bad : BOOLEAN] : x.bad => (x.b = 0 /\ ~x.close)}
 ReqSeqs == UNION {[1..n -> Shapes] : n \in 1..MaxReqs}
 \* cut sets with at most MaxCuts elements, built constructively
 RECURSIVE CutSets(_, _)
